@@ -594,6 +594,17 @@ pub(crate) fn switch<'a>(sh: &'a Shared, mut g: MutexGuard<'a, State>, me: Optio
             }
             g.history.events += 1;
             g.fire(tm.ev);
+            // everything scheduled for this same instant happens "at once": fire all of it before any
+            // thread runs, so that the order in which the woken threads proceed is a scheduler decision
+            // (seeded), not an accident of the order in which the timers were registered
+            while let Some(Reverse(next)) = g.timers.peek() {
+                if next.t != g.now {
+                    break;
+                }
+                let Reverse(tm) = g.timers.pop().unwrap();
+                g.history.events += 1;
+                g.fire(tm.ev);
+            }
             continue;
         }
         // no runnable thread, no pending event
